@@ -1,0 +1,28 @@
+//! Read-only reach probes for the external verification harness (feature `_verif_hooks`).
+//!
+//! A probe is a thread-local counter bumped at a branch whose reach the harness wants to
+//! *measure*. Probes never influence control flow.
+use std::cell::RefCell;
+
+/// Number of probe slots.
+pub const PROBE_COUNT: usize = 32;
+
+thread_local! {
+    static PROBES: RefCell<[u64; PROBE_COUNT]> = const { RefCell::new([0; PROBE_COUNT]) };
+}
+
+/// Bumps probe `id`.
+#[inline]
+pub fn hit(id: usize) {
+    PROBES.with(|p| {
+        if let Some(slot) = p.borrow_mut().get_mut(id) {
+            *slot += 1;
+        }
+    });
+}
+
+/// Returns the counters of the current thread and resets them.
+#[must_use]
+pub fn take() -> [u64; PROBE_COUNT] {
+    PROBES.with(|p| std::mem::replace(&mut *p.borrow_mut(), [0; PROBE_COUNT]))
+}
